@@ -141,6 +141,11 @@ def run(report, tier, seed):
             size = int(numpy.prod(shape)) if shape else 1
             return numpoly.polynomial(numpy.array([rng.randint(-3, 3) for _ in range(size)], dtype=numpy.int64).reshape(shape))
         names = rng.choice([(0,), (0, 1), (1,), (2, 10), (0, 1, 2), (3,)])
+        if len(shape) >= 2 and rng.random() < 0.25:
+            # an operand that is a transposed (not C-contiguous) view of the requested shape
+            q = gen.rand_poly(rng, tuple(reversed(shape)), names, nterms=rng.choice([1, 2, 3]), maxexp=2, dtype=numpy.int64,
+                              raw=rng.random() < 0.2)
+            return q.T
         return gen.rand_poly(rng, tuple(shape), names, nterms=rng.choice([1, 2, 3]), maxexp=2, dtype=numpy.int64,
                              raw=rng.random() < 0.2)
 
